@@ -1247,7 +1247,11 @@ func c25PinnedODKU(t *testing.T, srv *vsql.Server, admin *vsql.Session) string {
 	defer s.Close()
 	s.MustExec(t, "CREATE TABLE t (a INT, b INT, c INT, UNIQUE KEY ub (b), KEY ia (a), KEY ic (c), KEY ica (c,a))")
 	s.MustExec(t, "INSERT INTO t VALUES (1,1,1)")
-	s.MustExec(t, "INSERT INTO t VALUES (3,1,3) ON DUPLICATE KEY UPDATE c = 9")
+	// which indexes keep the rejected row's entries depends on map iteration order inside the
+	// table writer: several rejected rows make the reproduction reliable
+	for i := 3; i <= 8; i++ {
+		s.MustExec(t, fmt.Sprintf("INSERT INTO t VALUES (%d,1,%d) ON DUPLICATE KEY UPDATE c = 9", i, i))
+	}
 	st, err := (&sxInProc{srv: srv}).readIndexes(db, sxRootSpec{Kind: "working", Branch: "main"}, "t")
 	if err != nil {
 		t.Fatalf("pinned: %v", err)
@@ -1259,7 +1263,7 @@ func c25PinnedODKU(t *testing.T, srv *vsql.Server, admin *vsql.Session) string {
 		}
 	}
 	if len(bad) > 0 {
-		return "keyless table (a,b,c) with UNIQUE (b) and three more indexes, row (1,1,1), INSERT (3,1,3) ON DUPLICATE KEY UPDATE c = 9: table holds one row (1,1,9) but stored indexes hold " + strings.Join(bad, " ")
+		return "keyless table (a,b,c) with UNIQUE (b) and three more indexes, row (1,1,1), then INSERT (i,1,i) ON DUPLICATE KEY UPDATE c = 9 for i = 3..8: table holds one row (1,1,9) but stored indexes hold " + strings.Join(bad, " ")
 	}
 	return ""
 }
